@@ -428,6 +428,16 @@ theorem C13_state_lists_walk (hA hB : Nat) (hAB : hA ≠ hB) (ops : List StepMod
   obtain ⟨w, e, hw⟩ := C13_state_lists_refine hA hB hAB ops hc
   exact ⟨w, e, StepModel.GenNodeList.ring_walk hw.1, StepModel.GenNodeList.ring_walk hw.2.1⟩
 
+/-- … and the backward traversal (`head->prev`, `->prev`, … back to the head) visits it in reverse: `prev` is the exact
+    inverse of `next` on both rings after any history. -/
+theorem C13_state_lists_walk_back (hA hB : Nat) (hAB : hA ≠ hB) (ops : List StepModel.GenNodeList.Op)
+    (hc : ∀ o ∈ ops, o.node ≠ hA ∧ o.node ≠ hB) :
+    ∃ w, StepModel.GenNodeList.run (StepModel.GenNodeList.World.init hA hB) ops = some w ∧
+      StepModel.GenNodeList.walkBack w.heap hA ((StepModel.GenNodeList.refRun ⟨[], []⟩ ops).a.length + 1) hA = some (StepModel.GenNodeList.refRun ⟨[], []⟩ ops).a.reverse ∧
+      StepModel.GenNodeList.walkBack w.heap hB ((StepModel.GenNodeList.refRun ⟨[], []⟩ ops).b.length + 1) hB = some (StepModel.GenNodeList.refRun ⟨[], []⟩ ops).b.reverse := by
+  obtain ⟨w, e, hw⟩ := C13_state_lists_refine hA hB hAB ops hc
+  exact ⟨w, e, StepModel.GenNodeList.ring_walkBack hw.1, StepModel.GenNodeList.ring_walkBack hw.2.1⟩
+
 /-- A node is in at most one state list: no history puts a node into both references (so `ChangeList` moves, never copies). -/
 theorem C13_state_lists_exclusive (hA hB : Nat) (hAB : hA ≠ hB) (ops : List StepModel.GenNodeList.Op)
     (hc : ∀ o ∈ ops, o.node ≠ hA ∧ o.node ≠ hB) (n : Nat) :
@@ -441,6 +451,14 @@ theorem C13_state_lists_exclusive (hA hB : Nat) (hAB : hA ≠ hB) (ops : List St
 theorem C13_state_list_remove (h : StepModel.GenNodeList.Heap) (head n : Nat) (L : List Nat) (hr : StepModel.GenNodeList.Ring h head L) (hn : n ∈ L) :
     StepModel.GenNodeList.Ring (StepModel.GenNodeList.removeSelf h n) head (L.erase n) ∧ StepModel.GenNodeList.removeSelf h n n = StepModel.GenNodeList.Cell.unlinked :=
   ⟨(StepModel.GenNodeList.ring_removeSelf hr hn).1, (StepModel.GenNodeList.ring_removeSelf hr hn).2.1⟩
+
+/-- `GenNodeList::ClearEntries()` on any ring (the loop modelled statement by statement with its look-ahead pointer `gn`):
+    it meets no null pointer, terminates within `length + 1` iterations, leaves the empty ring, nulls both pointers of every
+    former member and touches no other cell. -/
+theorem C13_state_list_clear (h : StepModel.GenNodeList.Heap) (head : Nat) (L : List Nat) (hr : StepModel.GenNodeList.Ring h head L) :
+    ∃ h', StepModel.GenNodeList.clearEntriesLoop h head (L.length + 1) = some h' ∧ StepModel.GenNodeList.Ring h' head [] ∧
+      (∀ x ∈ L, h' x = StepModel.GenNodeList.Cell.unlinked) ∧ ∀ x, x ∉ head :: L → h' x = h x :=
+  StepModel.GenNodeList.ring_clearEntries hr
 
 /-- non-vacuity: a concrete history moving nodes between the lists, checked by evaluation -/
 example : (StepModel.GenNodeList.run (StepModel.GenNodeList.World.init 0 1) [.append false 5, .append true 6, .append false 7, .append true 5, .remove 7,
